@@ -1136,7 +1136,7 @@ func (e *Engine) binop(fr *frame, st *State, x *ssa.BinOp) Value {
 			// comparison of a pure source with a constant: remember for refinement
 			if src, ok := pureSource(a.B); ok {
 				_, sg := typeWidth(x.X.Type())
-				if !sg {
+				if !sg || strings.HasPrefix(src, "L:") { // lengths are non-negative
 					r.Cmp = &CmpV{Src: src, W: len(a.B), Op: x.Op, C: cb}
 				}
 			}
